@@ -64,7 +64,11 @@ def main(argv):
     evaluations = 0
     verdict_hist = {}
     # violations are reported shortest input first so that the first replay of a class is minimal
-    order = sorted(range(len(cases)), key=lambda k: (len(cases[k].split()[2]), k))
+    def weight(k):
+        rs = cases[k].split()[2]
+        cps = [] if rs == "-" else [int(h, 16) for h in rs.split(".")]
+        return (len(cps), sum(1 for x in cps if x < 32 or x > 126), k)
+    order = sorted(range(len(cases)), key=weight)
     for k in order:
         case, i, m = cases[k], impl[k], modl[k]
         cf, fi, fm = case.split(), i.split(), m.split()
